@@ -45,23 +45,31 @@ func histOrAudit(h *Harness, cfg histCfg, prefix string) {
 const histRule = "one run = a tape-drawn history (6-20 events: handshake / tick / origin change / restart / advance) over 1-2 validators and 2-3 CRL locations (two issuers with overlapping serials; sources CDP, crl_urls, crl_files; DER/PEM; serial widths 1-20 bytes; chunked delivery) with configuration (backend, mode, signature mode, fetch mode, strictness) drawn per run; every handshake verdict is checked against the versions observed in force by pure probes before and after it; non-trivial = some handshake was denied or concerned a listed serial, or an origin misbehaved; distinct = distinct (scenario, schedule) fingerprints"
 
 func init() {
-	register(&PropDef{ID: "C01", Plan: func(t string) Plan {
-		p := histPlanAudit(t, histRule+"; after the audits, 16 (thorough: 120) concurrent-listing runs: 3-6 handshakes for serials every version of the list contains, at once, against a refresh cycle that replaces the list, under seeded preemption, window delays and lock holds")
-		p.Runs += concurrentListedAuditRuns(t)
-		p.Enumerated += concurrentListedAuditRuns(t)
-		return p
-	}, Run: func(h *Harness) {
-		na := auditRuns(h.Tier) + siblingAuditRuns(h.Tier) + crossIssuerAuditRuns(h.Tier)
-		if h.Idx >= na && h.Idx < na+concurrentListedAuditRuns(h.Tier) {
-			ownPrefix = "C01."
-			runConcurrentListedAudit(h, h.Idx-na)
-			return
+	// C01 and C11 share the audits, the concurrent-listing runs and the explorer; each owns its own oracles
+	for _, id := range []string{"C01", "C11"} {
+		cfg := histCfg{prop: "C01", strictBias: 30, withOCSP: true, faulty: true, histLen: 6}
+		if id == "C11" {
+			cfg = histCfg{prop: "C11", strictBias: 30, faulty: true, histLen: 7}
 		}
-		if h.Idx >= na+concurrentListedAuditRuns(h.Tier) {
-			h.Idx -= concurrentListedAuditRuns(h.Tier) // the explorer's runs keep their numbering
-		}
-		histOrAudit(h, histCfg{prop: "C01", strictBias: 30, withOCSP: true, faulty: true, histLen: 6}, "C01.")
-	}})
+		prefix := id + "."
+		register(&PropDef{ID: id, Plan: func(t string) Plan {
+			p := histPlanAudit(t, histRule+"; after the audits, 16 (thorough: 120) concurrent-listing runs: 4-12 handshakes at once against a refresh cycle that replaces the list, under seeded preemption, window delays and lock holds: for serials every version of the list contains (never accepted), and for certificates of another issuer with that same serial, of which no list says anything (never revoked)")
+			p.Runs += concurrentListedAuditRuns(t)
+			p.Enumerated += concurrentListedAuditRuns(t)
+			return p
+		}, Run: func(h *Harness) {
+			na := auditRuns(h.Tier) + siblingAuditRuns(h.Tier) + crossIssuerAuditRuns(h.Tier)
+			if h.Idx >= na && h.Idx < na+concurrentListedAuditRuns(h.Tier) {
+				ownPrefix = prefix
+				runConcurrentListedAudit(h, h.Idx-na)
+				return
+			}
+			if h.Idx >= na+concurrentListedAuditRuns(h.Tier) {
+				h.Idx -= concurrentListedAuditRuns(h.Tier) // the explorer's runs keep their numbering
+			}
+			histOrAudit(h, cfg, prefix)
+		}})
+	}
 	register(&PropDef{ID: "C10", Plan: func(t string) Plan {
 		p := histPlan(t, histRule+"; the first 48 (thorough: 400) runs are concurrent-strictness scenarios: 2-5 overlapping strict handshakes for one distribution point while its origin fails or stalls or the store cannot switch to the delivered list (8 failure kinds, the last two being a store switch that fails and a staged database that cannot be moved into place, x backend x fetch mode), then while the first good delivery is slow, under seeded preemption; 4 more runs: lenient mode, an entry that was never loaded (origin unreachable) whose empty store fails every lookup - it must not be consulted")
 		p.Runs += strictConcRuns(t) + lenientUnloadedRuns(t)
@@ -79,9 +87,6 @@ func init() {
 			return
 		}
 		runCRLHistoryOwned(h, histCfg{prop: "C10", strictBias: 60, faulty: true, histLen: 6}, "C10.")
-	}})
-	register(&PropDef{ID: "C11", Plan: func(t string) Plan { return histPlanAudit(t, histRule) }, Run: func(h *Harness) {
-		histOrAudit(h, histCfg{prop: "C11", strictBias: 30, faulty: true, histLen: 7}, "C11.")
 	}})
 }
 
